@@ -81,18 +81,19 @@ theorem equals_int (l r : Value) (x y : Int)
     equals l r = decide (x = y) := by
   cases l <;> simp [numVal] at hl <;> cases r <;> simp [numVal] at hr <;> subst hl hr
   all_goals rename_i a b
-  · simp [equals, disc, beq, beq_eq_decide', Int64.toInt_inj]
+  · simp only [equals, disc, beq, beq_self_eq_true, if_true]
+    rw [beq_eq_decide', decide_eq_decide, Int64.toInt_inj]
   · have h1 := Int64.toInt_lt a
     have h2 := Int64.le_toInt a
     have h3 := UInt64.toNat_lt b
-    simp only [equals, beq_eq_decide']
-    (repeat' split) <;>
+    simp only [equals]
+    (repeat' split) <;> (try rw [beq_eq_decide']) <;>
       simp only [Bool.false_eq, decide_eq_false_iff_not, decide_eq_decide] <;> omega
   · have h1 := Int64.toInt_lt b
     have h2 := Int64.le_toInt b
     have h3 := UInt64.toNat_lt a
-    simp only [equals, beq_eq_decide']
-    (repeat' split) <;>
+    simp only [equals]
+    (repeat' split) <;> (try rw [beq_eq_decide']) <;>
       simp only [Bool.false_eq, decide_eq_false_iff_not, decide_eq_decide] <;> omega
   · simp only [equals, disc, beq, beq_self_eq_true, if_true]
     rw [beq_eq_decide', decide_eq_decide, ← UInt64.toNat_inj]; omega
@@ -102,25 +103,25 @@ theorem equals_int (l r : Value) (x y : Int)
 theorem beq_ordering_eq_iff (o : Ordering) : (o == Ordering.eq) = true ↔ o = .eq := by
   cases o <;> decide
 
+theorem equals_mixed_iu (x : Int64) (y : UInt64) : equals (.int64 x) (.uint64 y) = beq (.int64 x) (.uint64 y) := by
+  rw [equals_int (.int64 x) (.uint64 y) _ _ rfl rfl]
+  simp only [beq, cmpI64U64_num]
+  rw [Bool.eq_iff_iff, beq_ordering_eq_iff, Int.compare_eq_eq, decide_eq_true_iff]
+
+theorem equals_mixed_ui (x : UInt64) (y : Int64) : equals (.uint64 x) (.int64 y) = beq (.uint64 x) (.int64 y) := by
+  rw [equals_int (.uint64 x) (.int64 y) _ _ rfl rfl]
+  simp only [beq, cmpI64U64_num]
+  rw [Bool.eq_iff_iff, beq_ordering_eq_iff, Int.compare_eq_eq, decide_eq_true_iff]
+  exact eq_comm
+
 mutual
 theorem equals_eq_beq (a b : Value) : equals a b = beq a b := by
-  cases a <;> cases b <;> (try (simp only [equals, beq, disc]; decide))
-  all_goals rename_i x y
-  · simp [equals, beq, disc]
-  · -- int64, uint64
-    rw [equals_int (.int64 x) (.uint64 y) _ _ rfl rfl]
-    simp only [beq, cmpI64U64_num]
-    rw [Bool.eq_iff_iff, beq_ordering_eq_iff, Int.compare_eq_eq]; simp
-  · rw [equals_int (.uint64 x) (.int64 y) _ _ rfl rfl]
-    simp only [beq, cmpI64U64_num]
-    rw [Bool.eq_iff_iff, beq_ordering_eq_iff, Int.compare_eq_eq]; simp
-    exact eq_comm
-  · simp [equals, beq, disc]
-  · simp [equals, beq, disc]
-  · simp [equals, beq, disc]
-  · simp [equals, beq, disc]
-  · simp [equals, beq, disc]
-  · simp only [equals, beq]; exact equalsList_eq_beqList x y
+  cases a <;> cases b
+  all_goals first
+    | exact equals_mixed_iu _ _
+    | exact equals_mixed_ui _ _
+    | (simp only [equals, beq]; exact equalsList_eq_beqList _ _)
+    | simp [equals, beq, disc]
 theorem equalsList_eq_beqList (l r : List Value) :
     (l.length == r.length && equalsZipAll l r) = beqList l r := by
   cases l with
@@ -131,9 +132,7 @@ theorem equalsList_eq_beqList (l r : List Value) :
     | cons y ys =>
       simp only [List.length_cons, equalsZipAll, beqList]
       rw [← equalsList_eq_beqList xs ys, equals_eq_beq x y]
-      simp only [Nat.add_right_cancel_iff, beq_iff_eq, Bool.and_left_comm, Nat.succ.injEq,
-        Nat.succ_eq_add_one, Bool.eq_iff_iff, Bool.and_eq_true, decide_eq_true_eq]
-      constructor <;> intro h <;> simp_all
+      cases beq x y <;> simp
 end
 
 /-! ### strings: `cmpBytes` is the lexicographic order of byte lists -/
@@ -168,15 +167,11 @@ theorem onOrdering_cmpBytes (op : CmpOp) (a b : Bytes) :
       | .le => decide (a ≤ b) := by
   have hlt := cmpBytes_lt_iff a b
   have hgt := cmpBytes_gt_iff a b
-  have hle : a ≤ b ↔ ¬ b < a := List.not_lt.symm
-  have hge : a ≥ b ↔ ¬ a < b := List.not_lt.symm
-  cases op <;> simp only [CmpOp.onOrdering, GT.gt]
-  · cases h : cmpBytes a b <;> simp_all
-  · rw [Bool.eq_iff_iff, decide_eq_true_iff, hge]
-    cases h : cmpBytes a b <;> simp_all
-  · cases h : cmpBytes a b <;> simp_all
-  · rw [Bool.eq_iff_iff, decide_eq_true_iff, hle]
-    cases h : cmpBytes a b <;> simp_all
+  cases op <;> simp only [CmpOp.onOrdering, GT.gt, GE.ge]
+  · rw [Bool.eq_iff_iff, decide_eq_true_iff, ← hgt]; cases cmpBytes a b <;> decide
+  · rw [Bool.eq_iff_iff, decide_eq_true_iff, ← List.not_lt, ← hlt]; cases cmpBytes a b <;> decide
+  · rw [Bool.eq_iff_iff, decide_eq_true_iff, ← hlt]; cases cmpBytes a b <;> decide
+  · rw [Bool.eq_iff_iff, decide_eq_true_iff, ← List.not_lt, ← hgt]; cases cmpBytes a b <;> decide
 
 theorem cmpFn_string (op : CmpOp) (a b : Bytes) :
     cmpFn op (.string a) (.string b) = .ok (op.onOrdering (cmpBytes a b)) := by
